@@ -14,7 +14,7 @@ for d in sorted(glob.glob(os.path.join(VERIF, 'seeded', '*'))):
     m = json.load(open(mp))
     name = os.path.basename(d)
     first = m.get('history', '')
-    first = 'missed, then caught' if first.startswith(('MISSED', 'the first run ended')) else 'caught'
+    first = 'missed, then caught' if first.lower().startswith(('missed', 'the first run ended')) else 'caught'
     now = ', '.join(m.get('detected_by', [])) or 'NOT CAUGHT'
     rows.append('| %s | %s | %s | %s | %s |' % (
         name, m.get('what', '').replace('|', '/'),
